@@ -65,6 +65,16 @@ func (c *VerifCtx) verifyFunction(ct *Contract) (res *FuncResult) {
 			if g, ok := fn.Pkg.Members["init$guard"].(*ssa.Global); ok {
 				st0.cells[ex.globalCell(g).id] = BoolV{False}
 			}
+			// package-level variables are zero before their initialisers run
+			for _, mem := range fn.Pkg.Members {
+				if g, ok := mem.(*ssa.Global); ok && g.Name() != "init$guard" {
+					func() {
+						defer func() { recover() }()
+						c := ex.globalCell(g)
+						st0.cells[c.id] = ZeroV(c.typ)
+					}()
+				}
+			}
 			ex.dry++
 			ex.inInit = true
 			r := ex.execFunction(initFn, nil, nil, st0, TrueT, false)
